@@ -415,6 +415,8 @@ class Folder:
         e1 = strip(e, casts=True)
         if isnode(e1) and e1["k"] == "InitListExpr" and len(e1.get("c") or []) == 1:
             e1 = strip(e1["c"][0], casts=True)
+        if self.acc is not None and var_ref(e1) == self.acc and getattr(self, "acc_is_running_sum", False):
+            return      # the running sum handed to an accumulate lambda: what was added before, not a new summand
         if isnode(e1) and e1["k"] == "BinaryOperator" and e1["op"] == "+" and const_val(e1) is None:
             # keep strnlen + 1 together
             s = self.sym(e1)
@@ -586,6 +588,38 @@ class Folder:
                     else:
                         items.append(Item("SUB", t=t, des=self.designator(a), val=self.sym(a)))
                 return
+            if sc == "std::accumulate" and self.kind == "size" and len(e.get("args") or []) == 4:
+                # `acc = std::accumulate(c.begin(), c.end(), acc, [&](size_t a, T const& elem) { return a + <size of elem>; })`: one
+                # iteration per element of c, in order (accumulate is a left fold), the lambda's first parameter is the running sum
+                a0, a1, a2, a3 = e["args"]
+                def range_of(x, which):
+                    for y in walk(x):
+                        if is_call(y, r"::c?%s$" % which) and call_obj(y) is not None:
+                            return call_obj(y)
+                        if is_call(y, r"^std::c?%s$" % which) and y.get("args"):
+                            return y["args"][0]
+                    return None
+                rb, re_ = range_of(a0, "begin"), range_of(a1, "end")
+                lam = [x for x in walk(a3) if x["k"] == "LambdaExpr"]
+                specs = [l for l in self.lambdas.get(self.fn.name, []) if lam and l.name.split("#")[0].endswith(lam[0]["lambda"])]
+                if rb is not None and re_ is not None and self.sym(rb) == self.sym(re_) and var_ref(a2) == self.acc and self.acc is not None and \
+                        len(specs) == 1 and len(specs[0].rec.get("params") or []) == 2:
+                    sp = specs[0]
+                    sub = Folder(sp, "size", self.facts, self.lambdas)
+                    sub.env = dict(self.env)
+                    sub.cursor = self.cursor
+                    sub.capture_mode = True
+                    sub.env[sp.rec["params"][1]["did"]] = ("elem", self.sym(rb))
+                    sub.acc = sp.rec["params"][0]["did"]
+                    sub.acc_is_running_sum = True
+                    body_items = []
+                    sub.fn = sp
+                    sub._stmt(sp.body, body_items)
+                    self.pops += sub.pops
+                    self.pushes += sub.pushes
+                    if body_items:
+                        items.append(Item("REP", count=("size", self.sym(rb)), body=body_items))
+                    return
             if re.match(r"^std::(accumulate|for_each|for_each_n|transform|reduce|transform_reduce|inner_product|copy|copy_n|copy_if|generate|generate_n|fill_n)$", sc) and \
                     any(x["k"] == "LambdaExpr" or is_call(x, r"Codec<") for a_ in (e.get("args") or []) for x in walk(a_)):
                 # a standard algorithm driving codec calls through a callable: the iteration is inside the library template, not in a loop
